@@ -1606,6 +1606,10 @@ class AsyncGraph:
         #     self._synchronizer.action[-1].cancel()
 
         _verif.point("stop.enter")
+        # Tell the supervisor not to wait for an action that will never come: a supervisor step that registers its action
+        # future only after the cancel below would otherwise block forever (and with it the queued _stopping task).
+        self._synchronizer._must_reset = True
+
         # Stop all nodes
         fs = [n._stop(timeout=timeout) for n in self._async_nodes.values()]
 
